@@ -4,6 +4,15 @@
 an if/elif ladder, its inverted form, a chain of early returns or a loop over a literal (bound, spec) table all produce the same set
 of leaves  (interval of the parameter, value returned).  Tests the model cannot decide fork into both arms (recorded as facts).
 Nothing is matched as text: names are looked up in the environment, module-level literals are folded, calls are evaluated.
+
+`inline=<predicate on function names>` makes the engine *follow* calls to plain module-level functions (and to nested functions / lambdas
+of the frame under evaluation): before a statement is executed, the followed calls its expressions certainly evaluate are run on their
+argument values (`prefork`); every path through the callee continues the caller's path (interval, facts, effects; a `raise` in the
+callee ends the statement, an exception of a modelled builtin reaches the caller's `try`), the value is remembered under the call node.
+Lists handed to a helper that appends to them are written back to the caller's local; a helper that treats such a list in a way that is
+not followed makes it unknown.  Calls in conditionally evaluated positions (arms of conditional expressions, comprehension elements)
+are followed when the callee has one outcome.  Boolean expressions in value position (`neg = value < 0`, `return a <= w and b == c`)
+part the paths exactly as the same test in an `if` would.
 """
 from __future__ import annotations
 
@@ -15,6 +24,24 @@ from .e1_srcmodel import dotted
 from .c12_str import (V, Unk, Const, Param, Neg, Abs, Round, IntOf, FloatOf, Len, Opaque, Lit, Spec, Fmt, Cat, Strip, Replace, Slice, Rep,
                       Piece, StrOf, CaseOf, CallS, Choice, Tup, DictV, is_num, is_str, cat, as_int, parse_spec, make_fmt,
                       template_format, percent_format)
+
+
+class FuncV(V):
+    """a function defined inside the function under evaluation (nested def / lambda); it is followed when called from that very frame,
+    where its free variables are the caller's locals"""
+    __slots__ = ("node", "owner")
+
+    def __init__(self, node, owner):
+        self.node, self.owner = node, owner
+
+    def __eq__(self, o):
+        return isinstance(o, FuncV) and o.node is self.node
+
+    def __hash__(self):
+        return id(self.node)
+
+    def __repr__(self):
+        return f"FuncV({getattr(self.node, 'name', 'lambda')})"
 
 
 class Interval:
@@ -118,16 +145,27 @@ def _memo_key(node):
     return "<call:%d>" % id(node)
 
 
+def _boolean_expr(e):
+    """an expression whose value is True / False: comparisons, `not`, and / or of such, isinstance(...)"""
+    if isinstance(e, ast.Compare) or (isinstance(e, ast.UnaryOp) and isinstance(e.op, ast.Not)):
+        return True
+    if isinstance(e, ast.BoolOp):
+        return all(_boolean_expr(v) for v in e.values)
+    if isinstance(e, ast.Constant):
+        return isinstance(e.value, bool)
+    return isinstance(e, ast.Call) and isinstance(e.func, ast.Name) and e.func.id == "isinstance"
+
+
 def _plain_function(fn):
     """a function whose call is an ordinary evaluation of its body: no decorator, not a generator / coroutine"""
     ok = getattr(fn, "_c12_plain", None)
     if ok is None:
-        ok = isinstance(fn, ast.FunctionDef) and not fn.decorator_list
+        ok = isinstance(fn, ast.Lambda) or (isinstance(fn, ast.FunctionDef) and not fn.decorator_list)
         if ok:
-            stack = list(fn.body)
+            stack = list(fn.body) if isinstance(fn.body, list) else [fn.body]
             while stack:
                 n = stack.pop()
-                if isinstance(n, (ast.Yield, ast.YieldFrom, ast.Await)):
+                if isinstance(n, (ast.Yield, ast.YieldFrom, ast.Await, ast.Nonlocal, ast.Global)):
                     ok = False
                     break
                 if isinstance(n, (ast.FunctionDef, ast.AsyncFunctionDef, ast.Lambda, ast.ClassDef)):
@@ -214,6 +252,7 @@ class Engine:
         self._stack = _stack                 # names of the functions being evaluated (no recursion)
         self._term = []                      # paths ended by a raise inside a followed call of the current statement
         self._strict_flag = strict_locals
+        self.max_states = MAX_STATES
         self.mod = ctx.src.mod(rel)
         self.param = param
         self.cond_hook, self.call_hook, self.cmp_hook, self.len_hook = cond, call, cmp, length
@@ -268,7 +307,7 @@ class Engine:
                         done.append((st2, out, pay))
             cur = nxt
             self.nstates += len(cur)
-            if self.nstates > MAX_STATES:
+            if self.nstates > self.max_states:
                 raise Unsupported("too many paths")
             if not cur:
                 break
@@ -290,6 +329,10 @@ class Engine:
             for truth, st2 in self.decide(expr.test, st):
                 out.extend(self.forking_eval(expr.body if truth else expr.orelse, st2))
             return out
+        if _boolean_expr(expr) and not isinstance(expr, ast.Constant):
+            # a test kept in a temporary / returned by a predicate helper: the paths part here (the interval is split, the outcome recorded),
+            # exactly as if the test stood in the `if` that later reads the flag
+            return [(st2, Const(truth)) for truth, st2 in self.decide(expr, st)]
         sites = self._inline_sites(expr, st)
         if not sites:
             return [(st, self.ev(expr, st))]
@@ -334,7 +377,15 @@ class Engine:
             return [(st, "break", None)]
         if isinstance(s, ast.Continue):
             return [(st, "continue", None)]
-        if isinstance(s, (ast.Pass, ast.Assert, ast.Import, ast.ImportFrom, ast.Global, ast.Nonlocal, ast.Delete, ast.FunctionDef)):
+        if isinstance(s, ast.FunctionDef):
+            st.env[s.name] = FuncV(s, id(self))
+            return [(st, "next", None)]
+        if isinstance(s, ast.Delete):
+            for t in s.targets:
+                if isinstance(t, ast.Subscript) and isinstance(t.value, ast.Name) and isinstance(st.env.get(t.value.id), Tup):
+                    st.env[t.value.id] = Unk("item deleted")
+            return [(st, "next", None)]
+        if isinstance(s, (ast.Pass, ast.Assert, ast.Import, ast.ImportFrom, ast.Global, ast.Nonlocal)):
             return [(st, "next", None)]
         if isinstance(s, ast.Try):
             out = []
@@ -511,7 +562,7 @@ class Engine:
             return [(bool(v.value), st)]
         if isinstance(v, Tup):
             return [(bool(v.items), st)]
-        return self.undecided(test, st)
+        return self.undecided(test, st, ("truth", v, None))
 
     def undecided(self, test, st, vals=None):
         txt = ast.unparse(test)
@@ -609,12 +660,19 @@ class Engine:
 
     # ------------------------------------------------------------ followed calls
     def resolve_callee(self, node, st):
-        """(name, FunctionDef) of the plain module-level function a call node invokes and that is to be followed, else None"""
+        """(name, function node) of the function a call node invokes and that is to be followed - a plain module-level function, or a
+        function defined in the frame under evaluation - else None"""
         if self.inline is None or not isinstance(node.func, ast.Name):
+            return None
+        if any(isinstance(a, ast.Starred) for a in node.args) or any(k.arg is None for k in node.keywords):
             return None
         nm = node.func.id
         if nm in st.env:
             v = st.env[nm]
+            if isinstance(v, FuncV):
+                if v.owner != id(self) or len(self._stack) >= MAX_INLINE_DEPTH or ("<local>" + nm) in self._stack or not _plain_function(v.node):
+                    return None
+                return "<local>" + nm, v.node
             if not (isinstance(v, Opaque) and v.name.startswith("name:") and not v.args):
                 return None
             nm = v.name[5:]                  # a local bound to a function of the module (a formatter handed down as an argument)
@@ -622,8 +680,6 @@ class Engine:
         if fn is None or "." in nm or (nm + "#2") in self.mod.funcs or nm in self._stack or len(self._stack) >= MAX_INLINE_DEPTH:
             return None
         if not self.inline(nm) or not _plain_function(fn):
-            return None
-        if any(isinstance(a, ast.Starred) for a in node.args) or any(k.arg is None for k in node.keywords):
             return None
         return nm, fn
 
@@ -742,16 +798,23 @@ class Engine:
         env = self.bind_args(fn, args, kw)
         if env is None:
             return None
-        self.ctx.src.funcs_consulted.add(f"{self.rel}:{name}")
+        closure = name.startswith("<local>")
+        own = set()
+        if closure:
+            own = set(env) | {n.id for n in ast.walk(fn) if isinstance(n, ast.Name) and isinstance(n.ctx, (ast.Store, ast.Del))}
+            env = {**{k: v for k, v in st.env.items() if not k.startswith("<call:")}, **env}      # free variables: the caller's locals
+        else:
+            self.ctx.src.funcs_consulted.add(f"{self.rel}:{name}")
         sub = type(self)(self.ctx, self.rel, fn, param=self.param, cond=self.cond_hook, call=self.call_hook, cmp=self.cmp_hook, length=self.len_hook,
                      follow=self.follow, post=self.post_hook, lenient=self.lenient, exceptions=self.exceptions, strict_locals=self._strict_flag,
                      inline=self.inline, _stack=self._stack + (name,))
         sub._modconst = self._modconst
-        sub.nstates = self.nstates
+        sub.nstates, sub.max_states = self.nstates, self.max_states
         effects = st.effects + ((name, tuple(args), tuple(sorted(kw.items())), node),)
         cst = State(env, st.iv, st.facts, effects)
+        body = fn.body if isinstance(fn.body, list) else [ast.copy_location(ast.Return(value=fn.body), fn.body)]
         try:
-            res = sub.block(fn.body, cst)
+            res = sub.block(body, cst)
         finally:
             self.nstates = sub.nstates
         use = _list_param_use(fn, self)
@@ -766,6 +829,11 @@ class Engine:
         out = []
         for s2, o, pay in res:
             ns = State(dict(st.env), s2.iv, s2.facts, s2.effects)
+            if closure:
+                # a list of the enclosing frame the nested function appended to (a free variable it does not rebind)
+                for k, v in s2.env.items():
+                    if k not in own and k in st.env and st.env[k] is not v and isinstance(st.env[k], Tup):
+                        ns.env[k] = v
             for mine, theirs in shared:
                 how = use.get(theirs, "pure")
                 if how == "mutates":
@@ -918,6 +986,12 @@ class Engine:
             if any(k is None for k in node.keys):
                 return Unk("dict unpacking")
             return DictV(tuple((self._ev(k, st), self._ev(v, st)) for k, v in zip(node.keys, node.values)))
+        if isinstance(node, ast.UnaryOp) and isinstance(node.op, ast.Not):
+            r = self.decide(node, st.fork())
+            truths = {t for t, _ in r}
+            if len(truths) == 1:
+                return Const(truths.pop())
+            return Opaque("test", (Lit(ast.unparse(node)),))
         if isinstance(node, ast.UnaryOp):
             v = self._ev(node.operand, st)
             if isinstance(node.op, ast.USub):
@@ -954,6 +1028,8 @@ class Engine:
             if len(truths) == 1:
                 return Const(truths.pop())
             return Opaque("test", (Lit(ast.unparse(node)),))
+        if isinstance(node, ast.Lambda):
+            return FuncV(node, id(self))
         if isinstance(node, ast.Starred):
             return Unk("starred")
         if isinstance(node, (ast.ListComp, ast.GeneratorExp)) and len(node.generators) == 1 and not node.generators[0].is_async:
@@ -1393,6 +1469,11 @@ class Engine:
         xs = list(a[0].items) if len(a) == 1 and isinstance(a[0], Tup) else a
         return max(xs) if xs and all(is_num(x) for x in xs) else NotImplemented
 
+    def b_divmod(self, a, st):
+        if len(a) == 2 and is_num(a[0]) and is_num(a[1]) and a[1] != 0:
+            return Tup((Fraction(a[0] // a[1]), a[0] % a[1]))
+        return NotImplemented
+
     def b_range(self, a, st):
         ints = [as_int(x) for x in a]
         if not a or any(i is None for i in ints) or len(list(range(*ints))) > 400:
@@ -1424,7 +1505,7 @@ class Engine:
         return Fmt(Spec(conv="r"), a[0]) if len(a) == 1 else NotImplemented
 
 
-_BUILTINS = {"abs", "round", "int", "float", "str", "len", "min", "max", "range", "enumerate", "zip", "reversed", "tuple", "list", "sorted", "repr"}
+_BUILTINS = {"divmod", "abs", "round", "int", "float", "str", "len", "min", "max", "range", "enumerate", "zip", "reversed", "tuple", "list", "sorted", "repr"}
 
 
 def _tokens(v):
